@@ -172,6 +172,23 @@ def check(run):
 
     move_ctor_rules(run, ((T, 'tcp'), (U, 'udp')))
 
+    run.clause('R7 every hand-written copy/move constructor or assignment in the library transfers every field of its class (moved sockets, queue entries, packets keep their state)')
+    engines.special_members_cover(run, sorted({r_['norm'] for r_ in fx.records.values() if r_['file'].startswith(simlib.REPO_PREFIX) and not r_['norm'].startswith('sim::aux::m')}))
+    run.clause('a destroyed timer leaves no raw pointer in the timer queue: cancel() dequeues a queued timer on every path (shared with C03)')
+    import p03 as _p03
+    _p03.cancel_dequeues_rule(run)
+    run.clause('teardown order: close()/cancel() paths do not test a handler slot after a call that has already emptied it (the "still connecting" decision in close() must be taken before cancel() clears m_connect_handler)')
+    nst = 0
+    for cls, (slots, family) in p04.SLOTS.items():
+        for s_ in slots:
+            sf = handlers.SlotFlow(fx, cls + '::' + s_, family)
+            for f_, kind, node, ok_, needs in sf.results():
+                if kind == 'test-when-empty':
+                    nst += 1
+                    run.violation('R6-STALE', s_, '%s: test of %s' % (f_.norm, s_), f_.loc(node),
+                                  '%s is tested where it is known to be empty on every path (emptied by a call made earlier in this function): the branch guarding the teardown decision can never be taken - e.g. close() of a connecting socket then treats the half-open channel as established and sends an EOF to the listening acceptor' % s_)
+    run.ok('R6-STALE', 'scan', 'handler slots of timer/tcp/udp/acceptor', '', 'no slot is tested after it was emptied (%d stale tests)' % nst, nontrivial=False)
+
     run.clause('R16 no call made while a scoped guard on a std::mutex is alive reaches a function that locks the same mutex (self-deadlock in run(), its catch-all, add_timer/remove_timer)')
     engines.r16_no_relock(run)
     run.clause('R4 simulation::run catch-all: cancels from copies of the containers, sets the stop flag and re-throws on every path; remove_timer searches the whole equal-expiry range')
